@@ -30,7 +30,7 @@ def decodable (st : St) (k : Key) : Bool :=
 def handle (args : List String) (impl : String) : Verdict :=
   match args with
   | [c] =>
-    let opsS := ";".intercalate ((c.splitOn ";").filter (fun t => t ≠ "w" && t ≠ "S" && t ≠ "X"))
+    let opsS := ";".intercalate ((c.splitOn ";").filter (fun t => t ≠ "w" && t ≠ "S" && t ≠ "X" && t ≠ "L"))
     let racing := (c.splitOn ";").headD "" == "X"
     match C08.groupOp, (if opsS == "" then some [] else parseOps opsS) with
     | some g, some ops =>
